@@ -201,32 +201,49 @@ func settle(x *rt.Exec, baseline int, quiet bool) (leak []mon.G, incon bool) {
 			time.Sleep(time.Millisecond)
 		}
 	}
-	t0 := time.Now()
-	limit := 500 * time.Millisecond
 	if quiet {
-		limit = 300 * time.Millisecond
+		// no dumps in race builds (they synchronise with everything)
+		for t0 := time.Now(); runtime.NumGoroutine() > baseline && time.Since(t0) < 300*time.Millisecond; {
+			if time.Since(t0) < 3*time.Millisecond {
+				runtime.Gosched()
+			} else {
+				time.Sleep(time.Millisecond)
+			}
+		}
+		return nil, false
 	}
-	for runtime.NumGoroutine() > baseline && time.Since(t0) < limit {
+	// Quiescence = no goroutine is left in scheduler code (workers run the
+	// generated closures, whose deferred functions still emit events after the
+	// user function has returned). The goroutine count alone does not decide it:
+	// the baseline may include a goroutine of the harness that was about to exit.
+	schedGs := func() []mon.G {
+		var s []mon.G
+		for _, g := range mon.ParseDump(mon.DumpAll()) {
+			if g.InScheduler() {
+				s = append(s, g)
+			}
+		}
+		return s
+	}
+	t0 := time.Now()
+	for {
+		if len(schedGs()) == 0 {
+			return nil, false
+		}
+		if time.Since(t0) > 500*time.Millisecond {
+			break
+		}
 		if time.Since(t0) < 3*time.Millisecond {
 			runtime.Gosched()
 		} else {
 			time.Sleep(time.Millisecond)
 		}
 	}
-	if quiet || runtime.NumGoroutine() <= baseline {
-		return nil, false
-	}
 	for round := 0; round < 6; round++ {
 		var sets [3][]mon.G
 		for k := 0; k < 3; k++ {
-			var s []mon.G
-			for _, g := range mon.ParseDump(mon.DumpAll()) {
-				if g.InScheduler() {
-					s = append(s, g)
-				}
-			}
-			sets[k] = s
-			if len(s) == 0 {
+			sets[k] = schedGs()
+			if len(sets[k]) == 0 {
 				return nil, false
 			}
 			time.Sleep(60 * time.Millisecond)
